@@ -15,6 +15,7 @@ import sys
 import warnings
 
 from ..core import Check, classify_exception, vm_crosscheck
+from .. import ip_util
 
 warnings.simplefilter("ignore")
 
@@ -334,28 +335,50 @@ class Runner:
 
     # ------------------------------------------------------------------ ip_match
     def run_ip(self, cases, name):
-        """cases: (ip1, ip2, expected_or_None) — expected from integer arithmetic when generated from integers"""
+        """cases: (ip1, ip2, exp) — exp None, or ip_util.Exp: the verdict of INTEGER ARITHMETIC on the numbers the
+        two texts were generated from (the spec, evaluated on the implementation's answer), or, for malformed
+        arguments, ValueError / False"""
         chk = self.chk
         st = self.strata.setdefault(name, dict(cases=0, documented=0, raises=0, unmodelled=0, accepted=0))
-        rep = chk.oracle.query([(3, [a, b]) for a, b, _ in cases])
-        for (a, b, arith), (m, doc, spec) in zip(cases, rep):
+        rep = chk.oracle.query([(6, [a, b]) for a, b, _ in cases])
+        for (a, b, exp), (m, doc, spec, pa, pn) in zip(cases, rep):
             o = ob(self.impl["ip_match"], a, b)
             st["cases"] += 1
             chk.evaluations += 1
             case = dict(fn="ip_match", ip1=a, ip2=b, stratum=name)
-            if arith is not None and (not doc or spec != arith):
-                self.disagree(case, [doc, spec], arith, "ip spec (IpMatch.ip_spec) differs from integer arithmetic "
-                                                        "on a well-formed address/prefix pair")
-            if doc:
+            if exp is not None:
+                case["exp"] = exp.as_list()
+                # the Coq side against the arithmetic: documented-form flag, extracted spec, parsed integers
+                if bool(doc) != exp.doc or (exp.doc and spec != exp.val):
+                    self.disagree(case, [doc, spec], [int(exp.doc), exp.val],
+                                  "ip_doc / ip_spec (IpMatch.v) differ from integer arithmetic on the generating numbers")
+                if exp.addr is not None and pa != [ip_wire(*exp.addr)]:
+                    self.disagree(case, pa, [ip_wire(*exp.addr)], "parse_addr differs from the integer the text was written from")
+                if exp.net is not None and pn != [ip_wire(*exp.net[:2]), exp.net[2]]:
+                    self.disagree(case, pn, [ip_wire(*exp.net[:2]), exp.net[2]],
+                                  "parse_network differs from the integers the text was written from")
+            want = exp.val if exp is not None else (spec if doc else None)
+            if doc or (exp is not None and exp.doc):
                 st["documented"] += 1
                 chk.nontrivial.add(("ip", a, b))
                 st["accepted"] += o == 1
-                if o != spec:
-                    self.spec_fail(case, o, spec, f"ip_match({a!r}, {b!r}) = {show(o)} but block membership "
-                                                  f"addr / 2^(32-n) = net / 2^(32-n) is {show(spec)}")
-                    continue
+            if want is not None and o != want:
+                if exp is not None and exp.doc:
+                    f, x = exp.addr
+                    g, net, n = exp.net
+                    why = (f"block membership is {show(want)}: address {x:#x} (IPv{f}), block {net:#x}/{n} (IPv{g})"
+                           + ("" if f == g else ", families differ"))
+                elif exp is not None:
+                    why = ("the address is malformed: ValueError expected" if want == 1011
+                           else "the pattern is not a network: False expected")
+                else:
+                    why = f"block membership on the parsed integers (IpMatch.ip_spec) is {show(want)}"
+                self.spec_fail(case, o, want, f"ip_match({a!r}, {b!r}) = {show(o)} but {why}")
+                continue
             if m == NM:
                 st["unmodelled"] += 1
+                if doc or exp is not None:
+                    self.disagree(case, o, m, "ip_match: the model leaves its fragment")
                 continue
             if o >= 1000 if isinstance(o, int) else False:
                 st["raises"] += 1
@@ -363,8 +386,33 @@ class Runner:
                 self.disagree(case, o, m, "ip_match")
             if st["cases"] % 7 == 0:
                 self.wrappers_agree("ip_match", (a, b), o, case)
-        for a, b, _ in cases[:60]:
-            self.vm_pool.append((3, [a, b]))
+        for a, b, _ in cases[:40]:
+            if len(a) + len(b) < 90:
+                self.vm_pool.append((6, [a, b]))
+
+    def run_ip_render(self, ints, name):
+        """render6_full / render6_compressed (the texts of theorem C13_ip6_render_roundtrip) are Python's
+        IPv6Address(n).exploded / str(IPv6Address(n)), and ip_match identifies them"""
+        import ipaddress
+        st = self.strata.setdefault(name, dict(cases=0))
+        rep = self.chk.oracle.query([(7, ip_util.groups(n)) for n in ints])
+        for n, (full, comp) in zip(ints, rep):
+            full, comp = "".join(map(chr, full)), "".join(map(chr, comp))
+            st["cases"] += 1
+            self.chk.evaluations += 1
+            A = ipaddress.IPv6Address(n)
+            case = dict(fn="ip_match", kind="render", n=str(n), ip1=comp, ip2=full, stratum=name)
+            if full != A.exploded or comp != str(A) or comp != ip_util.canonical6(n) or full != ip_util.full6(n):
+                self.disagree(case, [A.exploded, str(A)], [full, comp], "render6_full / render6_compressed vs ipaddress")
+            o = ob(self.impl["ip_match"], comp, full)
+            if o != 1:
+                self.spec_fail(case, o, 1, f"ip_match({comp!r}, {full!r}) = {show(o)} but both texts denote {n:#x}")
+        for n in ints[:10]:
+            self.vm_pool.append((7, ip_util.groups(n)))
+
+
+def ip_wire(f, x):
+    return [4, x] if f == 4 else [6] + ip_util.groups(x)
 
 
 def show(x):
@@ -520,36 +568,6 @@ def gen_path_case(rng, style):
     return p, k
 
 
-def ip_cases(rng, nbase):
-    def dotted(x):
-        return ".".join(str((x >> s) & 255) for s in (24, 16, 8, 0))
-    special = [0, 0xFFFFFFFF, 0x0A000000, 0xC0A8027B, 0xC0A80200, 0x7F000001, 0x80000000, 0x00000001, 0xFFFFFF00]
-    bases = special + [rng.getrandbits(32) for _ in range(nbase)]
-    out = []
-    for net in bases:
-        for n in range(33):
-            sh = 32 - n
-            addrs = {net, (net >> sh << sh) if sh < 32 else 0, ((net >> sh << sh) if sh < 32 else 0) | ((1 << sh) - 1)}
-            for bit in (sh - 1, sh, sh + 1):
-                if 0 <= bit < 32:
-                    addrs.add(net ^ (1 << bit))
-            addrs.add(rng.getrandbits(32))
-            for a in addrs:
-                a &= 0xFFFFFFFF
-                exp = int((a >> sh) == (net >> sh)) if sh < 32 else 1
-                out.append((dotted(a), f"{dotted(net)}/{n}", exp))
-        out.append((dotted(net), dotted(net), 1))
-        out.append((dotted(net ^ 1), dotted(net), 0))
-    return out
-
-
-MALFORMED_IP = ["", "1.2.3", "1.2.3.4.5", "01.2.3.4", "1.2.3.256", "1.2.3.4 ", " 1.2.3.4", "1..2.3", "1.2.3.0004", "a.b.c.d",
-                "1.2.3.-4", "1.2.3.4/32", "1,2,3,4", "1.2.3.+4", "999.1.1.1", "0.0.0.00", "1.2.3.٤", "1.2.3.4\n"]
-MALFORMED_NET = ["", "1.2.3.4/", "1.2.3.4/33", "1.2.3.4/a", "1.2.3.4/1/2", "1.2.3.4/ 8", "1.2.3.4/+8", "/8", "1.2.3/8",
-                 "1.2.3.4/-1", "1.2.3.4/032", "1.2.3.4/0", "1.2.3.4/255.255.0.0", "1.2.3.4/0.0.0.255", "01.2.3.4/8",
-                 "1.2.3.256/8", "1.2.3.4//8", "::1/128", "1.2.3.4/8 ", "1.2.3.4/3٢", "10.0.0.0/8"]
-
-
 def class_cases(rng, n):
     bodies, docs = [], []
     alpha = "abcdxyz0123459_"
@@ -574,11 +592,11 @@ def class_cases(rng, n):
 # ---------------------------------------------------------------------- the run
 BUDGET = {
     # A: every pattern over the 8-character alphabet; B: documented-form patterns; G: glob alphabets
-    "quick": dict(A=(4, 3), B=(5, 4), G1=(5, 4), G2=(4, 3), random=3000, ipbase=12, classes=(4, 300), nl=(3, 2)),
+    "quick": dict(A=(4, 3), B=(5, 4), G1=(5, 4), G2=(4, 3), random=3000, ipbase=12, ip6=(8, 10, 6), classes=(4, 300), nl=(3, 2)),
     # after a broken proof/correspondence in quick: look for a failing input where it is most likely to be
     # (longer documented-form patterns, more generated paths); the other strata are not repeated
-    "escalated": dict(A=None, B=(6, 4), G1=None, G2=None, random=12000, ipbase=None, classes=None, nl=None),
-    "thorough": dict(A=(4, 4), B=(6, 5), G1=(6, 5), G2=(5, 3), random=20000, ipbase=120, classes=(5, 3000), nl=(4, 3)),
+    "escalated": dict(A=None, B=(6, 4), G1=None, G2=None, random=12000, ipbase=40, ip6=(40, 24, 30), classes=None, nl=None),
+    "thorough": dict(A=(4, 4), B=(6, 5), G1=(6, 5), G2=(5, 3), random=20000, ipbase=120, ip6=(120, None, 200), classes=(5, 3000), nl=(4, 3)),
 }
 
 
@@ -644,12 +662,20 @@ def run(chk, budget):
         # run in batches of patterns sharing one key list is not possible: query per pattern
         run_generated(R, "generated-" + style, groups, funcs)
         st["cases"] += len(lst)
-    # D: ip_match
+    # D: ip_match — both families; every documented-form case is written from integers (harness/ip_util.py)
     if b["ipbase"]:
-        R.run_ip(ip_cases(rng, b["ipbase"]), "ip-grid")
-        mal = [(a, "10.0.0.0/8", None) for a in MALFORMED_IP] + [("10.1.2.3", n, None) for n in MALFORMED_NET] + \
-              [(a, n, None) for a in MALFORMED_IP[:6] for n in MALFORMED_NET[:6]]
-        R.run_ip(mal, "ip-malformed")
+        nb6, npref, nrand = b["ip6"]
+        R.run_ip(ip_util.grid4(rng, b["ipbase"]), "ip-grid")
+        R.run_ip(ip_util.masks4(rng, max(2, b["ipbase"] // 3)), "ip4-netmask-hostmask")
+        R.run_ip(ip_util.structured6_cases(rng), "ip6-structured")
+        R.run_ip(ip_util.grid6(rng, nb6, npref), "ip6-grid")
+        R.run_ip(ip_util.embedded4(rng, nrand), "ip6-embedded-ipv4")
+        R.run_ip(ip_util.mixed(rng, nrand), "ip-mixed-families")
+        R.run_ip(ip_util.malformed(rng), "ip-malformed")
+        R.run_ip(ip_util.zones(rng), "ip6-zones")
+        R.run_ip_render(ip_util.SPECIAL6 + [rng.getrandbits(128) for _ in range(20 * nrand)] +
+                        [rng.getrandbits(128) & ~(((1 << 64) - 1) << rng.randrange(0, 65)) for _ in range(20 * nrand)] +
+                        [n for _, n in ip_util.structured6()[::7]], "ip6-renderings")
 
     # kernel cross-check of the extracted oracle on a sample of small requests
     pool = R.vm_pool
@@ -806,7 +832,10 @@ def replay(chk):
         sys.exit(1 if rec.get("kind") == "no-failing-input-found" else 0)
     R = Runner(chk)
     if fn == "ip_match":
-        R.run_ip([(c["ip1"], c["ip2"], None)], "replay")
+        if c.get("kind") == "render":
+            R.run_ip_render([int(c["n"])], "replay")
+        else:
+            R.run_ip([(c["ip1"], c["ip2"], ip_util.Exp.from_list(c["exp"]) if c.get("exp") else None)], "replay")
     elif fn == "range_match":
         R.run_range([c["pattern"][1:]], c["test"], "replay")
     else:
@@ -845,8 +874,16 @@ def main():
         "for every variable name of the pattern and one absent name; (N) regex-forwarded characters and newline keys; "
         "(E) range_match on every class body over {a b ] \\ - ! ^} and generated documented classes; (C) generated longer "
         "paths (1-6 segments, vocabulary + random segments, key = instantiated pattern, half of them mutated, query strings) "
-        "through the functions, their *_func wrappers and the FunctionMap names; (D) ip_match on base addresses x all 33 "
-        "prefix lengths x addresses at the block boundaries / one bit off / random, plus malformed arguments. Exhaustive "
+        "through the functions, their *_func wrappers and the FunctionMap names; (D) ip_match, every documented-form case "
+        "written from integers (family, address, block, prefix length) in a chosen spelling: IPv4 base addresses x all 33 "
+        "prefix lengths x addresses at the block boundaries / one bit off / random, the same blocks written with a netmask "
+        "and with a hostmask (incl. 0.0.0.0 and 255.255.255.255) and non-contiguous masks; IPv6: every placement of '::' "
+        "(36 pre/post shapes and the '::'-less shape) with groups from {0, 1, db8, FFFF, 00a} (exhaustive up to 4 explicit "
+        "groups, rotations above) in both cases, networks x prefix lengths 0..128 x boundary / one-bit-off / random addresses "
+        "in random admissible spellings (case, leading zeros, '::' over any sub-run of zeros, dotted-quad tail), embedded "
+        "IPv4 tails against their hex form, IPv4 vs IPv6 both ways incl. IPv4-mapped, a malformed stream (group counts, "
+        "two '::', 5 hex digits, empty groups, bad prefixes 129 -1 +8 ' 8' 0x8, non-ASCII digits, corrupted valid texts), "
+        "'%zone' suffixes, and the canonical / exploded renderings of integers. Exhaustive "
         "strata are duplicate-free by construction; a pair is non-trivial when its pattern contains a metacharacter "
         "(ip: when both arguments parse); generated cases are distinct by (style, pattern, key).")
     chk.assumptions = [
@@ -858,7 +895,10 @@ def main():
         "outside the documented form the regex-based functions forward pattern characters to Python's re: the model "
         "covers literal . [^/] with * + ? and lazy variants and one level of groups, anything else is reported as "
         "not modelled and only counted",
-        "ip_match: IPv4 dotted quads and /prefix-length networks; IPv6 and dotted netmasks/hostmasks are not modelled",
+        "ip_match: string arguments; both families, /prefix-length, IPv4 /netmask and /hostmask, IPv6 '::' / dotted-quad "
+        "tail are modelled and in the documented form (ip_doc); '%zone' suffixes are modelled (the zone is ignored by the "
+        "code) but outside the documented form: model comparison only; int / bytes arguments are not modelled; int() refusing "
+        "prefix strings of more than 4300 digits is modelled with the default limit",
         "Python re backtracking priority, ipaddress and str methods are modelled executably and tied by this "
         "correspondence check, not verified",
         "glob_match is modelled WITH fixes/C13-glob-star.diff applied; on a tree without it the check reports the "
